@@ -49,7 +49,8 @@ Definition ff (name size : N) (mtime : Z) (ino : N) (blocks : list bid) : fsfile
 Definition run (reduced : bool) := run_hist w_hashf w_padz w_truncf 1024 2 reduced w_newino 999%Z 2.
 Definition fix_m := HFix None None true false.
 
-(* a: the sync that skips the stripe has already put the hash of the NEW data into the CHG block *)
+(* a (REPAIRED in /repo by 0d034b0, regression statement): a sync that skips the stripe used to put the hash of the NEW data
+      into the CHG block; now the block keeps its past hash, fix sees "maybe old data" and reports the file unrecoverable *)
 Definition ops_a : list hop :=
   [HWrite 0 (ff 1 1024 100 1 [11%N]); HWrite 0 (ff 2 1024 100 2 [12%N]); HWrite 1 (ff 3 1024 100 3 [13%N]); HSync 0 0 [];
    HWrite 0 (ff 1 1024 200 4 [14%N]); HSync 0 0 [(0%nat, 1%nat, RdErrCont)]; HLose 0 1; fix_m].
@@ -77,8 +78,14 @@ Definition said_recovered (s : hstate) (j : nat) (name : N) : bool :=
   | Some r => negb (out_fail r) && existsb (fun t => N.eqb (fst t) K_ST_RECOVERED && match snd t with [d; n] => N.eqb d (N.of_nat j) && N.eqb n name | _ => false end) (r_tags (out_st r))
   | None => false end.
 
-Lemma witness_a : wf_hist 1024 ops_a = true /\ all_fine (run false ops_a) = false
-                  /\ file_blocks (run false ops_a) 0 1 = Some [11%N] /\ said_recovered (run false ops_a) 0 1 = true.
+(* the state before the loss and the fix: the history without its last two operations *)
+Definition chg_hash_after_skipped_sync : option hval :=
+  match nth 0 (c_disks (h_c (run false (firstn 6 ops_a)))) None with
+  | Some d => match slot_at d 0 with SFile _ _ b => Some (fb_hash b) | _ => None end
+  | None => None end.
+Lemma regression_a : wf_hist 1024 ops_a = true /\ all_fine (run false ops_a) = true
+                     /\ said_recovered (run false ops_a) 0 1 = false
+                     /\ chg_hash_after_skipped_sync = Some (w_hashf 11%N 1024%N).      (* still the hash of the OLD block 11 *)
 Proof. vm_compute. repeat split; reflexivity. Qed.
 Lemma witness_b : wf_hist 1024 ops_b = true /\ all_fine (run false ops_b) = false
                   /\ file_blocks (run false ops_b) 0 1 = Some [111%N] /\ said_recovered (run false ops_b) 0 1 = true.
@@ -99,8 +106,6 @@ Proof.
   specialize (H w_hashf w_padz w_truncf 1024%N 2%nat reduced w_newino 999%Z 2%nat ops w_hashf_injective eq_refl Hwf).
   unfold run in Hbad. congruence.
 Qed.
-Theorem fix_never_wrong_refuted_a : ~ fix_never_wrong.
-Proof. exact (refute false ops_a (proj1 witness_a) (proj1 (proj2 witness_a))). Qed.
 Theorem fix_never_wrong_refuted_b : ~ fix_never_wrong.
 Proof. exact (refute false ops_b (proj1 witness_b) (proj1 (proj2 witness_b))). Qed.
 Theorem fix_never_wrong_refuted_c : ~ fix_never_wrong.
